@@ -141,7 +141,9 @@ def out_type(name, tin):
 
 
 def chains(length, names=None):
-    """All type-compatible chains of `length` units fed with scalars."""
+    """All type-compatible chains of `length` units fed with scalars.
+    Types: S scalar, T 2-tuple of scalars, V variable-length tuple of scalars, X nested tuples
+    (only units that do not look inside accept X)."""
     names = names or sorted(n for n in UNITS if n != "sink_fn")
     out = []
 
@@ -150,12 +152,20 @@ def chains(length, names=None):
             out.append(tuple(prefix))
             return
         for n in names:
-            tin = UNITS[n][2]
-            ok = (tin == "A") or (tin == t) or (tin == "V" and t in ("T", "V")) or \
-                 (tin == "S" and t == "S")
-            if not ok:
+            tin, tout = UNITS[n][2], UNITS[n][3]
+            if tin == "S" and t != "S":
                 continue
-            rec(prefix + [n], out_type(n, t))
+            if tin == "T" and t != "T":
+                continue
+            if tin == "V" and t not in ("T", "V"):
+                continue
+            if tout == "A":
+                nt = t
+            elif tin == "A" and t != "S":
+                nt = "X"            # a batching node over tuples: nested
+            else:
+                nt = tout
+            rec(prefix + [n], nt)
     rec([], "S")
     return out
 
@@ -166,6 +176,10 @@ HASHING = {"unique", "unique_max1", "unique_max2", "unique_max3", "punique1", "p
 CORE = ["map", "filter", "acc", "acc_ws", "slice_1_n_2", "partition2", "partition2_key",
         "punique2_last", "punique2_key_first", "window2", "window2_partial", "unique",
         "unique_max1_list", "unique_key", "flatten", "pluck0", "starmap", "collect"]
+
+
+SMALL_CORE = ["map", "filter", "acc", "partition2", "punique2_last", "window2", "unique", "flatten",
+              "pluck0", "starmap", "collect", "slice_1_n_2"]
 
 
 def hashes(names):
